@@ -280,6 +280,10 @@ func decideSub(p *Prog, fn *ssa.Function, bo *ssa.BinOp) usubResult {
 	if rb, ok := stripConv(b).(*ssa.BinOp); ok && rb.Op == token.REM && sameVal(rb.X, a) {
 		return usubResult{true, "a - a%k"}
 	}
+	// a - (y % a): the remainder is smaller than the modulus
+	if rb, ok := stripConv(b).(*ssa.BinOp); ok && rb.Op == token.REM && sameVal(rb.Y, a) {
+		return usubResult{true, "a - (y % a)"}
+	}
 	if rb, ok := stripConv(b).(*ssa.BinOp); ok && rb.Op == token.AND && (sameVal(rb.X, a) || sameVal(rb.Y, a)) {
 		return usubResult{true, "a - (a&m)"}
 	}
